@@ -6,7 +6,7 @@ class P(StreamProperty):
     pid = 'C10'
     module = 'OpenFecVerif.Props.C10'
     theorems = ['C10_rs_finish_ok_iff', 'C10_rs_finish_failure_iff', 'C10_rs_monotone', 'C10_rs_submit_ok', 'C10_ldpc_finish_complete_ok',
-                'C10_ldpc_submit_ok', 'C10_rs_pointer_identity']
+                'C10_ldpc_submit_ok', 'C10_rs_pointer_identity', 'C10_ldpc_finish_truthful']
     rule = ('decoder sessions traced after every call (of_is_decoding_complete + of_get_source_symbols_tab after each submission): '
             'all receive sets for n<=nmax in increasing and shuffled-with-duplicates order, both submission APIs, finish after completion, '
             'finish with fewer than k symbols, callbacks; oracle: finish=OK <=> complete afterwards, finish=FAILURE <=> not complete, '
@@ -104,6 +104,8 @@ class P(StreamProperty):
                 sub = sorted(rng.sample(range(n), rng.randint(max(0, k - 2), n)))
             cases.append(gens.decoder_case('big%d' % j, cfg, gens.random_order(rng, sub, 0.2), api=rng.choice(['stream', 'table']),
                                            cb=rng.choice(['none', 'buf', 'null']), trace=(cfg.n <= 60), finish=True))
+        # histories that continue after of_finish_decoding (second finish, late symbols by either API, finish again)
+        cases += gens.after_finish_cases(rng, 'af', 200 if tier == 'quick' else 4000)
         return cases
 
 _p = P()
